@@ -57,6 +57,10 @@ def reserved_names(case):
                for s in case_samples(case) for k in all_keys(s))
 
 
+def class_name_collision(case):
+    return any(gen.class_name_collision(sorted(set(all_keys(s)))) for s in [case_samples(case)])
+
+
 def attrs_field_converter(case):
     o = case.get("opts", {}) if isinstance(case, dict) else {}
     return o.get("fw") == "attrs" and not o.get("pic")
@@ -114,6 +118,7 @@ PREDICATES = dict(
     attrs_field_converter=attrs_field_converter,
     pydantic_optional_container_of_none=pydantic_optional_container_of_none,
     legacy_list_order=legacy_list_order,
+    class_name_collision=class_name_collision,
     pydantic_stricter_datetime=pydantic_stricter_datetime,
 )
 
